@@ -31,6 +31,7 @@ structure BlSlot where
 structure St where
   now : Int := 1700000000
   prov : Provider := .openssl
+  provIdx : Nat := 0
   keys : Std.HashMap String KeyItem := {}       -- "set:idx" ↦ item
   cks : Std.HashMap Nat CkSlot := {}
   bls : Std.HashMap Nat BlSlot := {}
@@ -288,18 +289,20 @@ def step (st : St) (line : String) : St × String :=
   | ["prov", "name", h] =>
     match unhex h with
     | some (some n) =>
-      let st' := if jwtStrcmp (strBytes "openssl") n = 0 then some { st with prov := .openssl }
-                 else if jwtStrcmp (strBytes "gnutls") n = 0 then some { st with prov := .gnutls } else none
-      match st' with
-      | some s => (s, s!"rc=0 cur={provName s.prov} id={provId s.prov}")
-      | none => (st, s!"rc=1 cur={provName st.prov} id={provId st.prov}")
+      let (i, rc) := setOpsByName st.provIdx n
+      ({ st with provIdx := i, prov := providerOf i }, s!"rc={rc} cur={String.fromUTF8! (ByteArray.mk (opsName i).toArray)} id={opsId i}")
     | _ => (st, "badop")
   | ["prov", "id", n] =>
     match n.toInt? with
-    | some 1 => ({ st with prov := .openssl }, "rc=0 cur=openssl id=1")
-    | some 2 => ({ st with prov := .gnutls }, "rc=0 cur=gnutls id=2")
-    | _ => (st, s!"rc=1 cur={provName st.prov} id={provId st.prov}")
-  | ["provget"] => (st, s!"cur={provName st.prov} id={provId st.prov}")
+    | some v =>
+      let (i, rc) := if v < 0 then (st.provIdx, 1) else setOpsById st.provIdx v.toNat
+      ({ st with provIdx := i, prov := providerOf i }, s!"rc={rc} cur={String.fromUTF8! (ByteArray.mk (opsName i).toArray)} id={opsId i}")
+    | none => (st, "badop")
+  | ["provinit", h] =>
+    match unhex h with
+    | some v => let i := initOps v; ({ st with provIdx := i, prov := providerOf i }, "ok")
+    | none => (st, "badop")
+  | ["provget"] => (st, s!"cur={String.fromUTF8! (ByteArray.mk (opsName st.provIdx).toArray)} id={opsId st.provIdx}")
   | "ck" :: c :: rest =>
     match c.toNat? with
     | none => (st, "badslot")
